@@ -5,16 +5,16 @@ import "verif/sim/kit"
 func init() {
 	kit.Register(&kit.PropertySpec{
 		ID: "C20", Engine: "syncsim",
-		Profiles:  []kit.ProfileSpec{{Name: "deliver", Weight: 5}, {Name: "restart", Weight: 2}, {Name: "sync2", Weight: 1}},
+		Profiles:  []kit.ProfileSpec{{Name: "deliver", Weight: 5}, {Name: "restart", Weight: 2}, {Name: "rawfaults", Weight: 2}, {Name: "sync2", Weight: 1}},
 		QuickRuns: 8000, QuickBudgetS: 30, ThoroughRuns: 4000000, ThoroughBudgetS: 600,
 		Rule: "one run = one tape-drawn source state built with the real world state in database A (2-4 accounts with storage tries, shared storage/code, contracts with current and next code and object graphs, " +
 			"0-3 validators, a second generation of mutations so that A also holds stale nodes; layer 1 adds a plain bytes trie with short keys and an object trie whose leaves point at blobs) and an empty journaling database B. " +
 			"Profiles deliver/restart (layer 1): real merkle.NewBuilder(B) + NewWorldSnapshotWithBuilder/Resolve from the trusted roots only; a delivery scheduler looks at Requests() and per step delivers, by tape: the correct value of any pending request, " +
 			"a duplicate of a resolved value, a node of a foreign trie, random bytes, a genuine node nobody asked for yet, a forged value for a pending request (same length), a value under a hasher-less bucket; restart adds early Flush(true) and dirty restarts " +
-			"(new builder over an empty store, or over what B holds = observation only). Oracles run after every delivery. Profile sync2 (layer 2): the real sync2 syncer/processor/reactors as client against 2-4 peers running the real sync2 reactors over A, " +
+			"(new builder over an empty store, or over what B holds = observation only). Profile rawfaults: the builder writes straight into B (merkle.NewBuilderWithRawDatabase, as sync2's no-buffer mode and the data syncers do) and a transient write error is injected into about one delivery in eight; relaxed oracle for a delivery hit by the fault: it must report an error, may have stored the value for only some of its buckets, and its request must stay outstanding; everything else (store contents, 'nothing outstanding <=> complete', final equality) is judged as in the fault-free profiles. Oracles run after every delivery. Profile sync2 (layer 2): the real sync2 syncer/processor/reactors as client against 2-4 peers running the real sync2 reactors over A, " +
 			"Byzantine peers' answers perverted on the wire (forged payload, wrong/foreign data, silence, duplicates, wrong request id), delivery order and clock advance by tape inside a synctest bubble. " +
 			"Non-trivial = the sync completed and the final store/content comparison ran, after at least one adversarial delivery was refused (deliver), at least one flush or restart (restart), or at all (sync2); distinct = distinct event-log hash.",
-		QuickProbes:     []string{"forged_rejected", "unrequested_rejected", "duplicate_delivery", "builder_restart", "complete_sync"},
+		QuickProbes:     []string{"forged_rejected", "unrequested_rejected", "duplicate_delivery", "builder_restart", "complete_sync", "failed_delivery_kept_request"},
 		EssentialProbes: []string{"forged_rejected", "unrequested_rejected", "duplicate_delivery", "builder_restart", "complete_sync", "early_flush", "sync2_complete", "resume_over_partial_store"},
 		Assumptions: []string{
 			"'starting from only a trusted root hash' = the local store is empty when a builder starts; a builder resumed over a partially written store is exercised but only observed (probes resume_over_partial_store / resume_over_partial_store_incomplete, see /verif/findings/C20-observation-resume-over-partial-store.md)",
